@@ -57,6 +57,8 @@ type Op struct {
 	AS   int             `json:"as,omitempty"`
 	V    fnum            `json:"v,omitempty"`
 	SP   bool            `json:"sp,omitempty"` // Rec inside a sampled span
+	F    string          `json:"f,omitempty"`  // Fault: which fault of the collection (faults.go)
+	On   bool            `json:"on,omitempty"` // Fault: armed / cleared
 
 	inst Inst
 	id   int
@@ -152,12 +154,12 @@ func runScenario(sc *Scenario, tw *vh.TraceWriter, res *vh.Result) {
 			phase = "reg"
 		case "Shutdown":
 			// the last state, as the SDK sees it, is recorded before the provider goes down
-			streams, err := wd.sdkView()
+			streams, ck, err := wd.sdkViewKind()
 			if err != nil {
 				res.Inconcl(fmt.Sprintf("%s: Reader.Collect: %v", sc.ID, err))
 				return
 			}
-			tw.Emit(map[string]any{"ev": "Env", "sc": sc.ID, "insts": created, "streams": streams})
+			tw.Emit(map[string]any{"ev": "Env", "sc": sc.ID, "insts": created, "streams": streams, "ck": ck, "faults": wd.flt.list()})
 			_ = wd.mp.Shutdown(context.Background())
 			phase = "down"
 			res.Count("provider-shutdowns", 1)
@@ -171,26 +173,38 @@ func runScenario(sc *Scenario, tw *vh.TraceWriter, res *vh.Result) {
 		case "Rec":
 			wd.recordIn(op.id, op.AS, sc.ASes[op.AS-1], float64(op.V), op.SP)
 			res.Evaluations++
+		case "Fault":
+			if err := wd.setFault(op.F, op.On); err != nil {
+				res.Inconcl(fmt.Sprintf("%s: Fault %s: %v", sc.ID, op.F, err))
+				return
+			}
+			res.Count("fault-toggles", 1)
 		case "Scrape":
 			streams := []SStream{}
+			faults := wd.flt.list()
 			if phase == "reg" {
 				var err error
-				streams, err = wd.sdkView()
+				var ck string
+				streams, ck, err = wd.sdkViewKind()
 				if err != nil {
 					res.Inconcl(fmt.Sprintf("%s: Reader.Collect: %v", sc.ID, err))
 					return
 				}
-				tw.Emit(map[string]any{"ev": "Env", "sc": sc.ID, "insts": created, "streams": streams})
+				tw.Emit(map[string]any{"ev": "Env", "sc": sc.ID, "insts": created, "streams": streams, "ck": ck, "faults": faults})
+				res.Count("collections-"+ck, 1)
+				for _, f := range faults {
+					res.Count("scrapes-behind-fault-"+f, 1)
+				}
 			} else {
 				res.Count("scrapes-"+phase, 1) // before registration / after shutdown
 			}
 			o := wd.collectObs()
-			tw.Emit(map[string]any{"ev": "Scrape", "sc": sc.ID, "via": "collect", "phase": phase, "obs": o})
+			tw.Emit(map[string]any{"ev": "Scrape", "sc": sc.ID, "via": "collect", "phase": phase, "faults": faults, "obs": o})
 			res.Count("scrapes", 1)
 			countObs(res, streams, o)
 			if o.Panic == "" {
 				o2 := wd.gatherObs()
-				tw.Emit(map[string]any{"ev": "Scrape", "sc": sc.ID, "via": "gather", "phase": phase, "obs": o2})
+				tw.Emit(map[string]any{"ev": "Scrape", "sc": sc.ID, "via": "gather", "phase": phase, "faults": faults, "obs": o2})
 				res.Count("scrapes", 1)
 			}
 		}
